@@ -245,6 +245,25 @@ class CFG:
                 work.append(t)
         return seen
 
+    def natural_loops(self):
+        """[(head, latch, body-set)] for every back edge latch -> head (head dominates latch)"""
+        out = []
+        for b in self.blocks:
+            for h in self.succ[b]:
+                if self.dominates(h, b):
+                    body = {h, b}
+                    work = [b]
+                    while work:
+                        x = work.pop()
+                        if x == h:
+                            continue
+                        for q in self.pred[x]:
+                            if q not in body:
+                                body.add(q)
+                                work.append(q)
+                    out.append((h, b, body))
+        return out
+
     def exit_blocks(self):
         """blocks that contain a return (or fall to exit)"""
         return [b for b in self.blocks if self.exit in self.succ.get(b, [])]
